@@ -46,8 +46,21 @@ fn strat(sub_ms: bool) -> impl Strategy<Value = Case> {
 }
 
 fn strat_templates() -> impl Strategy<Value = Case> {
-    (0usize..TEMPLATES.len(), events(36), proptest::collection::vec(proptest::option::weighted(0.25, 0u8..16), 36)).prop_map(|(t, events, wm)| {
-        let wm_after = if TEMPLATES[t].0.starts_with("wm_") { wm } else { vec![] };
+    (0usize..TEMPLATES.len(), events(36), proptest::collection::vec(proptest::option::weighted(0.25, 0u8..14), 36), proptest::collection::vec(prop_oneof![Just(250i64), Just(500), Just(750), Just(1000), Just(1500), Just(0)], 36)).prop_map(|(t, mut events, wm, gaps)| {
+        let is_wm = TEMPLATES[t].0.starts_with("wm_");
+        if is_wm {
+            // event-time templates: all events of type A on a 250 ms grid with gaps around the 2 s / 1 s
+            // window parameters, so that watermark closes, re-anchored windows and boundary events are common
+            let mut ts = 0i64;
+            for (i, e) in events.iter_mut().enumerate() {
+                ts += gaps[i % gaps.len()];
+                e.ts_ms = ts;
+                if i % 5 != 4 {
+                    e.ty = "A".into();
+                }
+            }
+        }
+        let wm_after = if is_wm { wm } else { vec![] };
         Case { prog: Prog { streams: vec![] }, events, sub_ms_us: vec![], template: Some(t), wm_after }
     })
 }
@@ -211,7 +224,7 @@ fn main() {
     check.rule("programs of 1-3 streams (every window kind incl. partitioned, aggregates+having, 2-3 step sequences incl. `all`/.not/partition, joins, distinct, limit, derived chains) x <=36 events x EVERY cut point 0..=n: the uninterrupted engine's outputs after the cut must equal those of a freshly loaded engine that restored deserialize(serialize(create_checkpoint())) taken at the cut and was fed the same suffix. Differences are attributed to the kind of the stream that continues differently (one signature per operator kind). Sub-check `sub_ms` repeats this with sub-millisecond timestamp components. Non-trivial = a cut whose checkpoint holds live state (open window / active run / join buffer / distinct / limit) and whose suffix produces output.");
     check.assume("`.within` (processing-time deadlines) is not generated: wall-clock state cannot be compared deterministically");
     check.explore("cuts", || strat(false), 1_200, 20_000, |c| run(c, ""));
-    check.explore("templates", strat_templates, 900, 15_000, |c| run(c, ""));
+    check.explore("templates", strat_templates, 1_500, 25_000, |c| run(c, ""));
     check.explore("sub_ms", || strat(true), 300, 5_000, |c| {
         let o = run(c, "");
         if !o.is_fail() {
